@@ -108,3 +108,17 @@ Fixpoint fetch_loop (fuel : nat) (ps : vset) (total v n : nat) : fres :=
 
 Definition fetch (ps : vset) (total v : nat) : fres :=
   fetch_loop (2 * total) (set_slot 0 None ps) total v 0.
+
+(* ---- what reaches a zone's Schedule through the dispatcher (Schedule._handle_msg): a fragment of some version, or a 0404 payload that carries
+   none -- the controller's acknowledgement of a schedule WRITE (this gateway's or another's, overheard).  Only fragments are stored, and not
+   while this zone itself holds the lock (its own transfer processes its replies itself). ---- *)
+Inductive heard := HFrag (total k v : nat) | HAck (total k : nat).
+Definition hear (st : vset * option nat) (e : bool (* the lock is this zone's *) * heard) : vset * option nat :=
+  let '(ps, last) := st in
+  match e with
+  | (false, HFrag total k v) => let '(ps', r) := vupdate ps total k v in (ps', match r with Some w => Some w | None => last end)
+  | _ => (ps, last)
+  end.
+Definition hear_all (st : vset * option nat) (es : list (bool * heard)) : vset * option nat := fold_left hear es st.
+Definition is_frag (e : bool * heard) : bool := match e with (false, HFrag _ _ _) => true | _ => false end.
+Definition frag_of (e : bool * heard) : list (nat * nat * nat) := match e with (false, HFrag t k v) => [(t, k, v)] | _ => [] end.
